@@ -8,7 +8,8 @@
 (*        <<"pow",a,b>> <<"sq",a>>                                         *)
 (***************************************************************************)
 EXTENDS Naturals, Sequences, TLC
-CONSTANTS Families,   \* subset of {"normal", "bernoulli", "weibull"}
+CONSTANTS Families,   \* subset of {"normal", "mixnormal", "bernoulli", "weibull"}  ("mixnormal": the Gaussian component of one cluster
+                      \* of the mixture prior - the per-cluster regularity of the mixture model)
           Censorings, \* subset of {"censored", "observed"}
           Positions,  \* event relative to the individual's reference time: subset of {"before", "at", "after"}
           Shapes,     \* Weibull shape classes: subset of {"lt1", "eq1", "gt1", "eq3"}
@@ -57,7 +58,7 @@ WeibullNll == CASE WeibullKind = "zero" -> Num(0, 1)                          \*
                 [] WeibullKind = "penalty" -> Penalty
 
 Kind == IF fam = "weibull" THEN WeibullKind ELSE IF fam = "bernoulli" /\ pb # "interior" THEN "zero" ELSE "formula"
-Term == CASE fam = "normal" -> NormalNll [] fam = "bernoulli" -> BernoulliNll [] fam = "weibull" -> WeibullNll
+Term == CASE fam \in {"normal", "mixnormal"} -> NormalNll [] fam = "bernoulli" -> BernoulliNll [] fam = "weibull" -> WeibullNll
 
 Init == Init0 /\ term = Term /\ kind = Kind
 Next == UNCHANGED vars
